@@ -300,7 +300,8 @@ uint64_t cmb_timeseries_copy(struct cmb_timeseries *tgt,
         tgt->ta = NULL;
     }
 
-    const uint64_t csz = dsp_src->count;
+    /* Same allocated size as the x-values copied above, not just the count */
+    const uint64_t csz = dsp_src->cursize;
     if (src->ta != NULL) {
         cmb_assert_debug(csz > 0u);
         tgt->ta = cmi_calloc(csz, sizeof *(tgt->ta));
